@@ -191,12 +191,31 @@ ENV_NAMES = ['Option', 'Some', 'None', 'Result', 'Ok', 'Err', 'Ordering', 'Clone
 ENV_MODS = ['core', 'std', 'fmt', 'cmp', 'hash', 'clone', 'marker', 'option', 'default', 'ops', 'convert', 'mem', 'slice']
 
 
+# traits in scope at the derive site that offer, for every type, a method named like a std method the templates might call with method syntax
+ENV_METHODS = {
+    'm:into': 'pub trait AmbInto<T> { fn into(self) -> T; }\n    impl<S, T> AmbInto<T> for S { fn into(self) -> T { unreachable!() } }',
+    'm:clone': 'pub trait AmbClone { fn clone(&self) -> u8 { 0 } fn clone_from(&mut self, _: &Self) {} }\n    impl<S: ?Sized> AmbClone for S {}',
+    'm:eq': 'pub trait AmbEq { fn eq(&self, _: &Self) -> u8 { 0 } fn ne(&self, _: &Self) -> u8 { 0 } }\n    impl<S: ?Sized> AmbEq for S {}',
+    'm:cmp': 'pub trait AmbOrd { fn cmp(&self, _: &Self) -> u8 { 0 } fn partial_cmp(&self, _: &Self) -> u8 { 0 } fn lt(&self, _: &Self) -> u8 { 0 } fn then(self, _: u8) -> u8 where Self: Sized { 0 } '
+             'fn is_eq(&self) -> u8 { 0 } fn is_ne(&self) -> u8 { 0 } }\n    impl<S: ?Sized> AmbOrd for S {}',
+    'm:hash': 'pub trait AmbHash { fn hash(&self, _: u8) -> u8 { 0 } fn write(&mut self, _: u8) {} fn write_u8(&mut self) {} fn write_usize(&mut self) {} fn write_isize(&mut self) {} }\n    impl<S: ?Sized> AmbHash for S {}',
+    'm:fmt': 'pub trait AmbFmt { fn fmt(&self) -> u8 { 0 } fn write_str(&mut self) {} fn field(&mut self) {} fn entry(&mut self) {} fn debug_struct(&mut self) {} fn debug_tuple(&mut self) {} fn debug_map(&mut self) {} }\n    impl<S: ?Sized> AmbFmt for S {}',
+    # the same for the methods of the core::fmt builders, with receivers that method resolution tries before the builders' own `&mut self`
+    'm:builder': 'pub trait AmbBuilder { fn finish(&self) -> u8 { 0 } fn field(&self) -> u8 { 0 } fn entry(&self) -> u8 { 0 } }\n    impl<S: ?Sized> AmbBuilder for S {}',
+    'm:deref': 'pub trait AmbDeref { fn deref(&self) -> u8 { 0 } fn deref_mut(&mut self) -> u8 { 0 } fn as_ref(&self) -> u8 { 0 } fn as_mut(&mut self) -> u8 { 0 } fn borrow(&self) -> u8 { 0 } }\n    impl<S: ?Sized> AmbDeref for S {}',
+    'm:default': 'pub trait AmbDefault { fn default() -> u8 { 0 } fn new() -> u8 { 0 } fn from(_: u8) -> u8 { 0 } }\n    impl<S: ?Sized> AmbDefault for S {}',
+    'm:option': 'pub trait AmbOption { fn unwrap(self) -> u8 where Self: Sized { 0 } fn map(self) -> u8 where Self: Sized { 0 } fn is_some(&self) -> u8 { 0 } fn is_none(&self) -> u8 { 0 } fn unwrap_or(self) -> u8 where Self: Sized { 0 } }\n    impl<S: ?Sized> AmbOption for S {}',
+}
+
+
 def env_program(s, kind, shadow):
     """the derive sits in a module whose scope shadows `shadow` (list of names) in the type and value namespaces"""
     inner = program(s, kind, NEUTRAL, with_check=False)
     sh = ''
     for n in shadow:
-        if n in ENV_MODS:
+        if n in ENV_METHODS:
+            sh += '    %s\n' % ENV_METHODS[n]
+        elif n in ENV_MODS:
             sh += '    pub mod %s {}\n' % n
         else:
             sh += '    #[derive(Clone, Copy)] pub struct %s;\n' % n if n not in ('Clone', 'Copy') else '    pub struct %s;\n' % n
@@ -219,8 +238,9 @@ def check(v, tier):
     v.notes['harvested_identifiers'] = plain
     v.notes['binding_prefixes'] = prefixes
     jobs = []   # (key, program, twin)
+    raws = ['r#type', 'r#match', 'r#fn', 'r#struct', 'r#loop', 'r#dyn', 'r#async', 'r#try']
     for role, kinds in ROLES.items():
-        for ident in plain:
+        for ident in plain + ([] if role == 'lifetime' else raws):
             if role == 'lifetime' and ident in ('static',):
                 continue
             name = ident
@@ -256,8 +276,9 @@ def check(v, tier):
     # environments
     for s in SETS:
         for kind in ('sn', 'en'):
-            for n in ENV_NAMES + ENV_MODS:
+            for n in ENV_NAMES + ENV_MODS + sorted(ENV_METHODS):
                 cases.append(Case('C19|env|%s|%s|%s' % (n, kind, s), env_program(s, kind, [n]), {'env': [n], 'set': s}, expect='accept', run=True, depth=1))
+            cases.append(Case('C19|env|ALLMETHODS|%s|%s' % (kind, s), env_program(s, kind, sorted(m for m in ENV_METHODS if m != 'm:builder')), {'env': 'all method traits (except the builder methods, which have a state of their own)', 'set': s}, expect='accept', run=True, depth=2))
             cases.append(Case('C19|env|ALL|%s|%s' % (kind, s), env_program(s, kind, ENV_NAMES + ENV_MODS), {'env': 'all', 'set': s}, expect='accept', run=True, depth=2))
             cases.append(Case('C19|env|none|%s|%s' % (kind, s), env_program(s, kind, []), {'env': [], 'set': s}, expect='accept', run=True, depth=0))
     from .common import run_behavioural
@@ -281,6 +302,6 @@ def check(v, tier):
                     '{field name, variant name, type parameter, const parameter, lifetime, type name} x shape {named struct, tuple struct, enum} x trait set {Debug with a method field, Clone with a method, '
                     'Copy+Clone, PartialEq+Eq, PartialOrd, Ord, Hash, Default with new, Deref+DerefMut, Into x2}; for field names additionally the attribute-dependent template paths {Debug with named_field flipped (with and without a method field), Debug with the name off, PartialEq / PartialOrd+Ord / Hash / Clone with methods on the neighbouring fields}; sibling fields whose names differ by a binding prefix the templates use (harvested), '
                     'tuple-binding names as field names; (b) the derive placed in a module that shadows, in the type and value namespaces, each of 34 prelude / std names and 13 module names, one at a '
-                    'time and all at once; #![no_std] crate.  Guard: a twin with a hand-written marker impl and no derive must compile, otherwise the identifier / role pair is dropped as ill-typed '
+                    'time and all at once; traits in scope that give every type a method named like a std method (into, clone, eq, cmp, hash, fmt, deref, default, ...); #![no_std] crate.  Guard: a twin with a hand-written marker impl and no derive must compile, otherwise the identifier / role pair is dropped as ill-typed '
                     'on the user\'s side.  Oracle: compiles and a behavioural mini-oracle per trait set gives the expected result',
                     {'bounds': {'tier': tier, 'colliding_identifiers_per_state': 1}})
